@@ -395,6 +395,15 @@ def generate_control_proto(repo: Path) -> str:
             "set_option linter.unusedSimpArgs false\nnamespace Pamiq.GenCTP\nopen Pamiq\n\n" + body + "\nend Pamiq.GenCTP\n")
 
 
+def generate_stats(repo: Path) -> str:
+    """`InferenceThread.log_tick_time_statistics`: the statistics calls and the guards on the number of samples."""
+    import translate_skel as S
+    gen = S.SkelTr(repo, S.STATS_SPEC).generate(["log_tick_time_statistics"])
+    body = (TIES_DIR / "stats.lean").read_text().replace("--%GEN%\n", gen)
+    return ("import Pamiq.Model.Tick\nset_option linter.unusedVariables false\nset_option linter.unusedSimpArgs false\n"
+            "namespace Pamiq.GenStats\nopen Pamiq\n\n" + S.PRELUDE + "\n" + body + "\nend Pamiq.GenStats\n")
+
+
 def generate_handler(repo: Path) -> str:
     """`ControllerCommandHandler.manage_loop` / `stop_if_pause` (the loop guard of every background thread) interpreted
     over a background thread's graph of `Pamiq.Proto` (`Model/ProtoBg.lean`)."""
@@ -443,7 +452,8 @@ def check_class(res: SuiteResult, repo: Path, which: str = "TimeController") -> 
                              "StepIntervalScheduler": (generate_ssched, "GenSSched", "Pamiq.Sched", 3),
                              "ControlThread.on_tick": (generate_control_tick, "GenCT", "Pamiq.Tick", 5),
                              "ControlThread.pause_save": (generate_control_proto, "GenCTP", "Pamiq.Proto (ProtoCtl)", 7),
-                             "ControllerCommandHandler": (generate_handler, "GenH", "Pamiq.Proto (ProtoBg)", 2)}[which]
+                             "ControllerCommandHandler": (generate_handler, "GenH", "Pamiq.Proto (ProtoBg)", 2),
+                             "InferenceThread.statistics": (generate_stats, "GenStats", "Pamiq.Bookkeep (guarded)", 1)}[which]
     try:
         text = gen(repo)
     except T.Untranslatable as e:
@@ -547,6 +557,8 @@ def suite_for(*props: str):
             check_class(res, Path(REPO), "ControlThread.pause_save")
         if {"C01", "C02", "C09"} & set(props):
             check_class(res, Path(REPO), "ControllerCommandHandler")
+        if "C08" in props:
+            check_class(res, Path(REPO), "InferenceThread.statistics")
         text, parts, done, skipped = generate(Path(REPO), props)
         for fn, why in skipped:
             res.evaluations += 1
@@ -627,6 +639,11 @@ if __name__ == "__main__":
                         "thread/thread_control.py (reference copy of what every C01 / C02 / C09 run re-creates and re-checks; "
                         "do not edit). -/\n" + generate_handler(Path(REPO)))
         print("written", out7)
+        out8 = Path(LEAN_DIR) / "Pamiq" / "Gen" / "StatisticsTie.lean"
+        out8.write_text("/- GENERATED by harness/gentie.py (translate_skel.py + harness/ties/stats.lean) from /repo's "
+                        "thread/threads/inference.py (reference copy of what every C08 run re-creates and re-checks; do not "
+                        "edit). -/\n" + generate_stats(Path(REPO)))
+        print("written", out8)
         out = Path(LEAN_DIR) / "Pamiq" / "Gen" / "DecisionsTie.lean"
         out.parent.mkdir(exist_ok=True)
         out.write_text("/- GENERATED by harness/gentie.py from /repo's source (reference copy of what every run "
